@@ -4,9 +4,10 @@
     The model (VDrv.Queue, VDrv.Handoff) is a labelled transition system with
     one transition per yield point of amd/driver: any number of application
     threads running any sequence of Enqueue / DrainCommandQueue calls on any
-    number of queues, the runAsync goroutine, the engine goroutines.  A
-    schedule is a list of thread steps; [run c (init nq ps) sched] ranges over
-    every interleaving.  [cfg_orig] is the code as found, [cfg_fixed] the code
+    number of queues in any number of contexts ([cs] = the context of each
+    queue, context by context as Driver.Tick and findCommandByReqID visit them),
+    the runAsync goroutine, the engine goroutines.  A schedule is a list of
+    thread steps; [run c (init_ctx cs ps) sched] ranges over every interleaving.  [cfg_orig] is the code as found, [cfg_fixed] the code
     after the two repairs (listener channel of capacity 1; engineRerun).
 
     PARTIAL by nature: the theorems speak about interleavings of atomic steps
@@ -23,33 +24,36 @@ From VDrv Require Import Queue Handoff QueueSafety QueueInv QueueLive QueueRank 
     (completion order is submission order); what was started = what completed
     plus, while IsRunning, exactly the head (one command at a time, and only
     after all its predecessors completed). *)
-Theorem queue_fifo : forall c nq ps sched s,
-  run c (init nq ps) sched = Some s ->
+Theorem queue_fifo : forall c cs ps sched s,
+  run c (init_ctx cs ps) sched = Some s ->
   forall q qq, nth_error (queues s) q = Some qq ->
     q_enq qq = q_done qq ++ map c_id (q_cmds qq) /\
     q_start qq = q_done qq ++ (if q_running qq then firstn 1 (map c_id (q_cmds qq)) else []) /\
     (q_running qq = true -> q_cmds qq <> []).
 Proof.
-  intros c nq ps sched s H q qq Hq.
-  exact (Forall_nth_error _ _ _ _ (run_fifo c sched _ _ (init_fifo nq ps) H) Hq).
+  intros c cs ps sched s H q qq Hq.
+  exact (Forall_nth_error _ _ _ _ (run_fifo c sched _ _ (init_ctx_fifo cs ps) H) Hq).
 Qed.
 Print Assumptions queue_fifo.
 
 (** Queues do not disturb each other: the history of queue q consists of
     exactly the Enqueue calls addressed to q, in the order they were made;
-    each thread's calls appear in its program order; and a transition changes
-    at most the one queue it is about. *)
-Theorem queues_isolated : forall c nq ps sched s,
-  run c (init nq ps) sched = Some s ->
+    each thread's calls appear in its program order; a transition changes
+    at most the one queue it is about (for a response: the queue
+    findCommandByReqID returns); and queues never change their context. *)
+Theorem queues_isolated : forall c cs ps sched s,
+  run c (init_ctx cs ps) sched = Some s ->
+  map q_ctx (queues s) = cs /\
   (forall q qq, nth_error (queues s) q = Some qq -> q_enq qq = log_for q (g_log s)) /\
   (forall t a p, nth_error (apps s) t = Some a -> nth_error ps t = Some p ->
                  enqs_of t p = thread_log t (g_log s) ++ enqs_of t (a_prog a)) /\
   (forall l s', step c s l = Some s' ->
                 forall q, touched s l <> Some q -> nth_error (queues s') q = nth_error (queues s) q).
 Proof.
-  intros c nq ps sched s H. split; [|split].
-  - exact (run_log c sched _ _ (init_log nq ps) H).
-  - exact (proj2 (run_prog ps c sched _ _ (init_prog nq ps) H)).
+  intros c cs ps sched s H. split; [|split; [|split]].
+  - rewrite (run_ctx c sched _ _ H). simpl. rewrite map_map. simpl. apply map_id.
+  - exact (run_log c sched _ _ (init_ctx_log cs ps) H).
+  - exact (proj2 (run_prog ps c sched _ _ (init_ctx_prog cs ps) H)).
   - intros l s' Hs. exact (step_frame c s l s' Hs).
 Qed.
 Print Assumptions queues_isolated.
@@ -59,8 +63,8 @@ Print Assumptions queues_isolated.
 (** Full-strength statement: in no reachable state is every thread blocked
     while an application thread still has calls to finish. *)
 Definition drain_returns_in (c : cfg) : Prop :=
-  forall nq ps sched s,
-    progs_ok nq ps = true -> run c (init nq ps) sched = Some s -> deadlocked c s = false.
+  forall cs ps sched s,
+    progs_ok (length cs) ps = true -> run c (init_ctx cs ps) sched = Some s -> deadlocked c s = false.
 
 (** FALSE of the code as found.  (1) Lost wake-up: one thread, one queue,
     Enqueue; Drain — the waiter is parked on an empty queue forever. *)
@@ -82,8 +86,8 @@ Print Assumptions drain_returns_refuted_exit.
 
 Corollary drain_returns_orig_false : ~ drain_returns_in cfg_orig.
 Proof.
-  intros H. specialize (H 1 prog_lost sched_lost).
-  destruct (run cfg_orig (init 1 prog_lost) sched_lost) as [s|] eqn:E; [|vm_compute in E; discriminate].
+  intros H. specialize (H [0] prog_lost sched_lost).
+  destruct (run cfg_orig (init_ctx [0] prog_lost) sched_lost) as [s|] eqn:E; [|vm_compute in E; discriminate].
   specialize (H s eq_refl eq_refl). revert E H. vm_compute. intros E. injection E as <-. discriminate.
 Qed.
 Print Assumptions drain_returns_orig_false.
@@ -93,11 +97,11 @@ Theorem one_repair_is_not_enough :
   ~ drain_returns_in (mkCfg true false) /\ ~ drain_returns_in (mkCfg false true).
 Proof.
   split; intros H.
-  - specialize (H 1 prog_exit sched_exit).
-    destruct (run (mkCfg true false) (init 1 prog_exit) sched_exit) as [s|] eqn:E; [|vm_compute in E; discriminate].
+  - specialize (H [0] prog_exit sched_exit).
+    destruct (run (mkCfg true false) (init_ctx [0] prog_exit) sched_exit) as [s|] eqn:E; [|vm_compute in E; discriminate].
     specialize (H s eq_refl eq_refl). revert E H. vm_compute. intros E. injection E as <-. discriminate.
-  - specialize (H 1 prog_lost sched_lost).
-    destruct (run (mkCfg false true) (init 1 prog_lost) sched_lost) as [s|] eqn:E; [|vm_compute in E; discriminate].
+  - specialize (H [0] prog_lost sched_lost).
+    destruct (run (mkCfg false true) (init_ctx [0] prog_lost) sched_lost) as [s|] eqn:E; [|vm_compute in E; discriminate].
     specialize (H s eq_refl eq_refl). revert E H. vm_compute. intros E. injection E as <-. discriminate.
 Qed.
 Print Assumptions one_repair_is_not_enough.
@@ -105,8 +109,34 @@ Print Assumptions one_repair_is_not_enough.
 (** TRUE of the repaired code, for every number of threads, queues and
     commands and every schedule (inductive invariant [inv]). *)
 Theorem drain_returns : drain_returns_in cfg_fixed.
-Proof. intros nq ps sched s Hp Hr. exact (reachable_not_deadlocked nq ps sched s Hp Hr). Qed.
+Proof.
+  intros cs ps sched s Hp Hr. apply inv_not_deadlocked.
+  exact (run_inv sched _ _ (init_ctx_inv cs ps Hp) Hr).
+Qed.
 Print Assumptions drain_returns.
+
+(** Responses and contexts: whatever the number and the order of the contexts, a
+    response waiting in the driver's port is matched by findCommandByReqID (first
+    hit, context by context, queue by queue, on the request ID) to the queue that
+    issued the request - which is running, not empty, and the only one with
+    that ID - so that by [queues_isolated] processing it changes no queue of
+    any other context, and no other queue of its own. *)
+Theorem response_matched_to_issuer : forall cs ps sched s q r,
+  progs_ok (length cs) ps = true -> run cfg_fixed (init_ctx cs ps) sched = Some s ->
+  resp s = q :: r ->
+  match_response s q = Some q /\
+  exists qq, nth_error (queues s) q = Some qq /\ q_running qq = true /\ q_cmds qq <> [] /\
+             forall q' qq', nth_error (queues s) q' = Some qq' -> q_running qq' = true ->
+                            q_req qq' = q_req qq -> q' = q.
+Proof.
+  intros cs ps sched s q r Hp Hr Hq.
+  pose proof (run_inv sched _ _ (init_ctx_inv cs ps Hp) Hr) as I.
+  split; [exact (resp_matched s I q r Hq)|].
+  destruct (i_flight s I) as (_ & Hf). destruct (Hf q) as (qq & E & R & C).
+  { unfold flight. rewrite Hq. apply in_or_app. right. apply in_or_app. right. left. reflexivity. }
+  exists qq. repeat split; auto. intros q' qq' E' R' Q'. exact (proj2 (i_req s I) q' q qq' qq E' E R' R Q').
+Qed.
+Print Assumptions response_matched_to_issuer.
 
 (** ... and it always returns.  The ranking function [rank] (VDrv.QueueRank)
     strictly decreases on every transition of the repaired protocol, so: every
@@ -114,12 +144,12 @@ Print Assumptions drain_returns.
     [s] at most [rank s] further steps are possible, under ANY scheduler (no
     fairness assumption is needed, hence in particular under weak fairness);
     and when no further step is possible every DrainCommandQueue has returned. *)
-Theorem drain_returns_progress : forall nq ps sched s,
-  progs_ok nq ps = true -> run cfg_fixed (init nq ps) sched = Some s ->
-  length sched + rank s <= rank (init nq ps) /\
+Theorem drain_returns_progress : forall cs ps sched s,
+  progs_ok (length cs) ps = true -> run cfg_fixed (init_ctx cs ps) sched = Some s ->
+  length sched + rank s <= rank (init_ctx cs ps) /\
   (forall sched2 s2, run cfg_fixed s sched2 = Some s2 -> length sched2 + rank s2 <= rank s) /\
   (stuck cfg_fixed s = true -> all_done s = true).
-Proof. exact schedules_finite_and_complete. Qed.
+Proof. exact schedules_finite_and_complete_ctx. Qed.
 Print Assumptions drain_returns_progress.
 
 Theorem rank_decreases : forall s l s',
@@ -130,12 +160,12 @@ Print Assumptions rank_decreases.
 (** What the invariant says about a waiter: whoever is blocked in <-signal
     (or about to block without a buffered token) waits on a queue that still
     holds a command or whose Dequeue has not notified yet; and it never panics. *)
-Theorem waiter_not_lost : forall nq ps sched s,
-  progs_ok nq ps = true -> run cfg_fixed (init nq ps) sched = Some s ->
+Theorem waiter_not_lost : forall cs ps sched s,
+  progs_ok (length cs) ps = true -> run cfg_fixed (init_ctx cs ps) sched = Some s ->
   lost_waiter s = true -> exists q, ebool (epc_notifies q) (eng s) = true.
 Proof.
-  intros nq ps sched s Hp Hr Hl.
-  pose proof (run_inv sched _ _ (init_inv nq ps Hp) Hr) as I.
+  intros cs ps sched s Hp Hr Hl.
+  pose proof (run_inv sched _ _ (init_ctx_inv cs ps Hp) Hr) as I.
   unfold lost_waiter in Hl. apply existsb_exists in Hl. destruct Hl as (a & Hin & Ha).
   apply In_nth_error in Hin. destruct Hin as (t & Ht).
   destruct (i_apps s I t a Ht) as (_ & _ & W & _).
@@ -145,10 +175,10 @@ Proof.
 Qed.
 Print Assumptions waiter_not_lost.
 
-Theorem never_panics : forall nq ps sched s,
-  progs_ok nq ps = true -> run cfg_fixed (init nq ps) sched = Some s -> crashed s = false.
+Theorem never_panics : forall cs ps sched s,
+  progs_ok (length cs) ps = true -> run cfg_fixed (init_ctx cs ps) sched = Some s -> crashed s = false.
 Proof.
-  intros nq ps sched s Hp Hr. exact (i_crash s (run_inv sched _ _ (init_inv nq ps Hp) Hr)).
+  intros cs ps sched s Hp Hr. exact (i_crash s (run_inv sched _ _ (init_ctx_inv cs ps Hp) Hr)).
 Qed.
 Print Assumptions never_panics.
 
